@@ -116,6 +116,7 @@ type frame struct {
 	panic            interface{}
 	phitemps         []value // temporaries for parallel phi assignment
 	phisDone         bool    // the phis of fr.block were already assigned by if-conversion
+	cur              ssa.Instruction // the instruction being executed (for panic locations)
 }
 
 func (fr *frame) get(key ssa.Value) value {
@@ -571,6 +572,16 @@ func runFrame(fr *frame) {
 		}
 		fr.panicking = true
 		fr.panic = p
+		if DebugPC && fr.i.x.panicStack == "" {
+			for f := fr; f != nil; f = f.caller {
+				pos := ""
+				if f.cur != nil {
+					pos = fr.i.prog.Fset.Position(f.cur.Pos()).String()
+				}
+				fr.i.x.panicStack += "    at " + f.fn.String() + " " + pos + "\n"
+			}
+			fmt.Fprintf(os.Stderr, "target panic %v\n%s", p, fr.i.x.panicStack)
+		}
 		if fr.i.mode&EnableTracing != 0 {
 			fmt.Fprintf(os.Stderr, "Panicking: %T %v.\n", fr.panic, fr.panic)
 		}
@@ -592,6 +603,7 @@ func runFrame(fr *frame) {
 					fmt.Fprintln(os.Stderr, "\t", instr)
 				}
 			}
+			fr.cur = instr
 			if visitInstr(fr, instr) == kReturn {
 				return
 			}
